@@ -12,7 +12,8 @@ pid = sys.argv[1]
 extra = sys.argv[2:]
 wt = os.environ.get("SEEDED_ROOT", "/tmp/mut") + "/" + pid
 out = os.path.join(wt, "_out")
-env = dict(os.environ, PYTHONPATH=wt, MPLBACKEND="Agg", PYTHONWARNINGS="ignore")
+env = dict(os.environ, PYTHONPATH=wt, MPLBACKEND="Agg", PYTHONWARNINGS="ignore", NUMBA_NUM_THREADS="2", OMP_NUM_THREADS="1",
+           OPENBLAS_NUM_THREADS="1", MKL_NUM_THREADS="1")      # several of these run side by side
 
 
 def sh(cmd, cwd=None, timeout=1500, env=env):
